@@ -130,6 +130,9 @@ type bias struct {
 	pair       bool
 	crashy     bool
 	pCorrupt   int
+	pLongURL   int
+	pMultiLine int
+	pMultiField int
 }
 
 func defaultBias() bias {
@@ -144,7 +147,7 @@ func defaultBias() bias {
 		pReqCC: 20, reqCCs: []string{"no-cache", "max-age=0", "max-age=5", "max-stale", "max-stale=5", "min-fresh=2", "only-if-cached", "no-store", "max-age=60", "stale-if-error=30"},
 		pUnsafe: 3, pOtherMeth: 3, pRange: 2, pCond: 2, pCancel: 0, pPoison: 10, pPartial: 5, pRespell: 20, pSelHdr: 30,
 		thinkFocus: 70, pStoreLat: 10, swrTimeouts: []int64{-1, -1, 0, -5, 1, int64(time.Second), int64(5 * time.Second), int64(60 * time.Second)},
-		maxBody: 2000, pLoc: 0,
+		maxBody: 2000, pLoc: 0, pLongURL: 6, pMultiLine: 8,
 	}
 }
 
@@ -276,7 +279,9 @@ func (g *gen) plan(b *bias, resIdx, nRes int, vary string) RespPlan {
 		}
 	}
 	if g.chance(b.pHop) {
-		p.Hop = [][2]string{{"Connection", "keep-alive, X-Hop-Custom"}, {"Keep-Alive", "timeout=5, max=HOPMARK$SID"}, {"X-Hop-Custom", "HOPMARK-custom-$SID"}, {"Proxy-Authenticate", "Basic realm=HOPMARK$SID"}}
+		// (field names are case-insensitive: the nomination need not be spelled like the field line)
+		nom := pick(g, "keep-alive, X-Hop-Custom", "keep-alive, x-hop-custom", "Keep-Alive,X-HOP-CUSTOM", "x-hop-custom")
+		p.Hop = [][2]string{{"Connection", nom}, {"Keep-Alive", "timeout=5, max=HOPMARK$SID"}, {pick(g, "X-Hop-Custom", "x-hop-custom"), "HOPMARK-custom-$SID"}, {"Proxy-Authenticate", "Basic realm=HOPMARK$SID"}}
 		if g.chance(40) {
 			p.Hop = append(p.Hop, [2]string{"Upgrade", "HOPMARK/$SID"}, [2]string{"Proxy-Connection", "HOPMARK-keep"})
 		}
@@ -284,17 +289,17 @@ func (g *gen) plan(b *bias, resIdx, nRes int, vary string) RespPlan {
 	if g.chance(30) {
 		p.Extra = append(p.Extra, [2]string{"Content-Type", pick(g, "text/plain", "application/octet-stream", "text/html; charset=utf-8")})
 	}
-	if g.chance(15) {
+	if g.chance(max(b.pMultiField, 15)) {
 		p.Extra = append(p.Extra, [2]string{"X-Multi", "a$SID"}, [2]string{"X-Multi", "b, c"}, [2]string{"Link", `</x>; rel="next", </y>; rel="prev"`})
 	}
 	p.Change = g.chance(b.pChange)
 	p.No304 = g.chance(b.pNo304)
 	if g.chance(b.pLoc) {
-		p.Loc = pick(g, "rel", "abs", "cross")
+		p.Loc = pick(g, "rel", "abs", "cross", "netpath")
 		p.LocRes = g.IntN(nRes)
 	}
 	if g.chance(b.pLoc) {
-		p.CLoc = pick(g, "rel", "abs", "cross")
+		p.CLoc = pick(g, "rel", "abs", "cross", "netpath")
 		p.CLocRes = g.IntN(nRes)
 	}
 	return p
@@ -313,6 +318,14 @@ func (g *gen) resource(b *bias, i, n int) Resource {
 	}
 	if g.chance(8) {
 		r.Path, r.Query = "/", fmt.Sprintf("r%d=1", i)
+	}
+	if g.chance(b.pLongURL) {
+		// long URIs: store keys around the 255-byte file-name limit of the file-system backend and beyond
+		want := pick(g, 150, 170, 180, 185, 186, 188, 190, 191, 192, 195, 200, 260, 300, 600)
+		base := len("http://" + host + r.Path)
+		if want > base+2 && r.Path != "/" {
+			r.Path += "/" + strings.Repeat("l", want-base-1)
+		}
 	}
 	r.LMBase = pick(g, int64(10), 100, 1000, 10000, 1000000)
 	vary := ""
@@ -357,7 +370,13 @@ func (g *gen) selHeaders(res *Resource, b *bias) [][2]string {
 				v = m[g.IntN(len(m))]
 			}
 			if v != "" {
-				out = append(out, [2]string{f, v})
+				if parts := strings.Split(v, ","); len(parts) > 1 && g.chance(b.pMultiLine) {
+					for _, pt := range parts { // the same list sent as several field lines
+						out = append(out, [2]string{f, strings.TrimSpace(pt)})
+					}
+				} else {
+					out = append(out, [2]string{f, v})
+				}
 			}
 		}
 	}
@@ -596,6 +615,7 @@ var profiles = map[string]func(b *bias, g *gen){
 		b.statuses = []int{200, 200, 200, 201, 204, 303, 404}
 	},
 	"writeback": func(b *bias, g *gen) {
+		b.pMultiField = 40
 		b.lifetimes = []int64{1, 2, 5, 10}
 		b.pValidator, b.pChange, b.pSWR, b.pVary, b.pVaryFlip, b.pNo304 = 95, 35, 35, 45, 3, 5
 		b.pNoCache, b.pNoStore, b.pReqCC = 2, 1, 8
@@ -604,6 +624,7 @@ var profiles = map[string]func(b *bias, g *gen){
 		b.backends = []string{"mem", "mem", "fs"}
 	},
 	"hits": func(b *bias, g *gen) {
+		b.pLongURL, b.pMultiLine = 20, 20
 		b.statuses = []int{200, 200, 203, 301, 308, 404, 405, 410, 414, 501}
 		b.pErrStatus, b.pNoCache, b.pNoStore, b.pMustReval, b.pNoCacheQ = 0, 0, 0, 3, 0
 		b.lifetimes = []int64{60, 300, 3600, 86400}
